@@ -11,6 +11,7 @@ import Ipv8.C13.TableI
 import Ipv8.C13.TableJ
 import Ipv8.C13.TableK
 import Ipv8.C13.TableL
+import Ipv8.C13.TableM
 
 namespace Ipv8.C13
 
